@@ -379,6 +379,24 @@ func init() {
 						w.drainReads()
 						w.heal(1 * time.Second)
 					}
+					// the deadline survives a failed (short-buffer) read: read short, retry, then block until it
+					{
+						s := w.stream(1, 1)
+						w.write(0, 1, 500, 51)
+						w.heal(1 * time.Second)
+						at := w.now() + 50
+						s.SetReadDeadline(time.Now().Add(50 * time.Millisecond)) //nolint:errcheck
+						w.tr.emit(map[string]any{"ev": "api", "ep": 1, "op": "setreaddeadline", "sid": 1, "at": at, "t": w.now()})
+						w.read(1, 1, 10)
+						w.read(1, 1, 1000)
+						w.readBlocking(1, 1, 1000)
+						w.sleep(200 * time.Millisecond)
+						s.SetReadDeadline(time.Time{}) //nolint:errcheck
+						w.tr.emit(map[string]any{"ev": "api", "ep": 1, "op": "setreaddeadline", "sid": 1, "at": 0, "t": w.now()})
+						w.write(0, 1, 30, 51) // releases the reader if it is still blocked
+						w.heal(1 * time.Second)
+						w.drainReads()
+					}
 					w.snapAll = true
 					w.quiesce()
 					w.tr.emit(map[string]any{"ev": "expect", "drained": true, "t": w.now()})
